@@ -233,6 +233,53 @@ example : String.ofList ("beq".toList ++ showSrcOps Gen.syms
     [.reg ⟨0, 0⟩, .lit (-1), .lab "LOOP_EXIT", .entry 2 (.lit 5)]) = "beq R0 -1 LOOP_EXIT @2[5]" := by
   decide +kernel
 
+/-! ### Instructions that are modified after they have been printed
+
+The property speaks about *the text printed for an instruction*: whatever happened to the
+object before (printed by a logger, operands re-assigned in place, branch re-targeted by the
+transpiler), the text printed now must parse to the instruction as it is now. -/
+
+/-- printing (observing) does not change the instruction -/
+theorem observe_id (i : Instr) : applyIUpd i .observe = i := rfl
+
+/-- the printed line is a function of the current class and operand values: two histories that
+end in the same instruction print the same text (no memo of an earlier print) -/
+theorem print_depends_on_current_values (T : Table) (S : Syms) (i₁ i₂ : Instr) (us₁ us₂ : List IUpd)
+    (h : applyIUpds i₁ us₁ = applyIUpds i₂ us₂) :
+    showLine T S (applyIUpds i₁ us₁) = showLine T S (applyIUpds i₂ us₂) := by rw [h]
+
+theorem applyIUpds_cls (i : Instr) (us : List IUpd) : (applyIUpds i us).cls = i.cls := by
+  induction us generalizing i with
+  | nil => rfl
+  | cons u us ih =>
+    simp only [applyIUpds, List.foldl_cons]
+    have := ih (applyIUpd i u)
+    simp only [applyIUpds] at this
+    rw [this]; cases u <;> rfl
+
+/-- **Sequence form of `parse_print`.** Take any instructions, each with its own history of
+prints and in-place operand updates. If the operands they hold *now* are in range, the text
+printed now — one line per instruction — parses back to exactly the current instructions. -/
+theorem parse_print_after_update (T : Table) (S : Syms) (generic : List String) (exc : List (String × Nat))
+    (hS : symsOk S = true) (hT : T.all (rowTextOk T exc generic) = true)
+    (hs : List (Instr × List IUpd))
+    (h : ∀ p ∈ hs, ∃ row, rowOf T p.1.cls = some row ∧
+      InRangeOps row.shape (applyIUpds p.1 p.2).ops = true) :
+    parseText T S generic exc (hs.map (fun p => showLine T S (applyIUpds p.1 p.2)))
+      = .ok (hs.map (fun p => applyIUpds p.1 p.2)) := by
+  have := parse_print T S generic exc hS hT (hs.map (fun p => applyIUpds p.1 p.2)) (by
+    intro i hi
+    obtain ⟨p, hp, rfl⟩ := List.mem_map.1 hi
+    obtain ⟨row, hr, hin⟩ := h p hp
+    exact ⟨row, by rw [applyIUpds_cls]; exact hr, hin⟩)
+  simpa [List.map_map, Function.comp_def] using this
+
+-- the sequence of seeded change C17_4 in the model: `jmp 3` is printed, re-targeted to -7 and
+-- printed again: the text is `jmp -7` and parses to the current instruction
+example : String.ofList (showLine Gen.vanillaRows Gen.syms
+    (applyIUpds ⟨"core.JmpInstruction", [.imm 3]⟩ [IUpd.observe, IUpd.setOp 0 (.imm (-7)), IUpd.observe]))
+    = "jmp -7" := by decide +kernel
+
 /-! Non-vacuity -/
 
 -- a concrete printed line, and its parse
